@@ -5,7 +5,11 @@
 (* docs/config.adoc ("macro", "Output chords", the macro variants).         *)
 (*                                                                         *)
 (* params p:                                                               *)
-(*   macros : Seq([c, rep, rc, pc, body])  c = physical key; rep = repeat   *)
+(*   macros : Seq([c, rep, rc, pc, body (, tg, pk, rk)])                     *)
+(*            c = physical key (0: the macro sits on a virtual key operated *)
+(*            by the physical keys tg = toggle-vkey, pk = press-vkey, rk =   *)
+(*            release-vkey; "held" then means the virtual key is wanted      *)
+(*            pressed); rep = repeat                                         *)
 (*            variant; rc = release-cancel; pc = cancel-on-press; body =    *)
 (*            Seq(item) as written in the configuration text:               *)
 (*              [t |-> "k", k]            a key                             *)
@@ -13,6 +17,7 @@
 (*              [t |-> "m", mods, items]  S-a, C-S-a, S-(a b ...)            *)
 (*              [t |-> "l", items]        a nested list                     *)
 (*              [t |-> "u", ch]           (unicode ch)                      *)
+(*              [t |-> "b", btn]          a mouse button tap (mlft ...)      *)
 (*              [t |-> "v", o, y]         tap of virtual key number y whose  *)
 (*                                        action is the key o               *)
 (*   cap    : documented number of macros that can be active together (4)   *)
@@ -35,7 +40,7 @@
 (*  documented capacity it may not play at all; if it plays, then exactly.   *)
 (*  The macros started before it stay exact.                                 *)
 (*   S1 the OS events on the macro's keys are exactly the next step          *)
-(*   O1 (S1 where a key step overtakes a pending unicode item)               *)
+(*   O1 (S1 where a key step overtakes a pending unicode / button item)      *)
 (*   S2 no two steps of one activation in the same tick                      *)
 (*   D1 a delay n => at least n ticks between the neighbouring steps         *)
 (*   S3 every step is played (kanata does not go idle before)                *)
@@ -48,7 +53,9 @@
 (*      before ended                                                        *)
 (*  Everywhere:                                                             *)
 (*   S0 no event on a macro's key while no macro using it runs               *)
-(*   E1 when kanata is idle (two ticks, no input) no macro key is down       *)
+(*   E1 when kanata is idle (two ticks, no input) no macro key / button is   *)
+(*      down;  E2 a mouse button a macro pressed comes up again (a tick      *)
+(*      later; ticks with other custom actions may delay it)                 *)
 (*   B1 kanata does not report "can block" while a key pressed by a macro    *)
 (*      is still down (a blocked loop would leave it down until next input)  *)
 (*   V1 virtual-key items of a completed macro acted                         *)
@@ -76,6 +83,9 @@ XItem(it) ==
                      \o <<Raw("ug", 0, SeqToSet(it.mods), 0, "")>>
     [] it.t = "l" -> XItems(it.items)
     [] it.t = "u" -> <<Raw("U", 0, {}, 0, it.ch)>>
+    \* a mouse-button item (mlft, mrgt, ...): the button goes down; it comes up again at least a tick later,
+    \* which is not a step of its own (the macro goes on meanwhile)
+    [] it.t = "b" -> <<Raw("bd", 0, {}, 0, it.btn)>>
     [] it.t = "v" -> <<Raw("v", it.o, {}, it.y, "")>>
 XItems(items) == IF items = <<>> THEN <<>> ELSE XItem(Head(items)) \o XItems(Tail(items))
 
@@ -114,7 +124,9 @@ MInfo(mac) ==
   IN [steps |-> v.steps, N |-> Len(v.steps), trail |-> v.trail,
       lead |-> IF v.steps = <<>> THEN 0 ELSE v.steps[1].w,     \* delay written before the first visible step
       keys |-> {raw[i].k : i \in {j \in DOMAIN raw : raw[j].t = "d"}},
-      chars |-> {raw[i].ch : i \in {j \in DOMAIN raw : raw[j].t = "U"}},
+      \* unicode characters and mouse-button names of the body (distinct strings)
+      chars |-> {raw[i].ch : i \in {j \in DOMAIN raw : raw[j].t \in {"U", "bd"}}},
+      btns |-> {raw[i].ch : i \in {j \in DOMAIN raw : raw[j].t = "bd"}},
       vouts |-> {raw[i].k : i \in {j \in DOMAIN raw : raw[j].t = "v"}},
       nv |-> Cardinality({j \in DOMAIN raw : raw[j].t = "v"}),
       \* ticks one round keeps the macro active (each item one tick, a delay n ticks)
@@ -132,6 +144,8 @@ EvsMatchRec(raw, evs) ==
             [] s.t = "w" -> e.e = "delay" /\ e.d = s.n /\ EvsMatchRec(Tail(raw), Tail(evs))
             [] s.t = "U" -> e.e = "custom" /\ Len(e.cu) = 1 /\ e.cu[1].c = "unicode" /\ e.cu[1].ch = s.ch
                             /\ EvsMatchRec(Tail(raw), Tail(evs))
+            [] s.t = "bd" -> e.e = "custom" /\ Len(e.cu) = 1 /\ e.cu[1].c = "mouse" /\ e.cu[1].btn = s.ch
+                             /\ EvsMatchRec(Tail(raw), Tail(evs))
             [] s.t = "v" -> e.e = "custom" /\ Len(e.cu) = 1 /\ e.cu[1].c = "fakekey" /\ e.cu[1].op = "tap"
                             /\ e.cu[1].x = 1 /\ e.cu[1].y = s.n /\ EvsMatchRec(Tail(raw), Tail(evs))
             [] s.t = "ug" -> LET n == Cardinality(s.ks) IN
@@ -149,8 +163,19 @@ SetMin(S) == CHOOSE i \in S : \A j \in S : i <= j
 AllKeys(m) == UNION {m.x[i].keys : i \in DOMAIN m.x}
 AllChars(m) == UNION {m.x[i].chars : i \in DOMAIN m.x}
 AllVouts(m) == UNION {m.x[i].vouts : i \in DOMAIN m.x}
+AllBtns(m) == UNION {m.x[i].btns : i \in DOMAIN m.x}
+\* virtual-key operation of the physical key c: <<macro index, op>> or <<0, "">>
+OnVk(mac) == "tg" \in DOMAIN mac
+VkOp(p, c) ==
+  LET T == {i \in DOMAIN p.macros : OnVk(p.macros[i]) /\ p.macros[i].tg = c}
+      P == {i \in DOMAIN p.macros : OnVk(p.macros[i]) /\ p.macros[i].pk = c}
+      R == {i \in DOMAIN p.macros : OnVk(p.macros[i]) /\ p.macros[i].rk = c}
+  IN IF T # {} THEN <<CHOOSE i \in T : TRUE, "toggle">>
+     ELSE IF P # {} THEN <<CHOOSE i \in P : TRUE, "press">>
+     ELSE IF R # {} THEN <<CHOOSE i \in R : TRUE, "release">>
+     ELSE <<0, "">>
 \* queued events are processed one per tick only if nothing else feeds the queue
-SharpQ(m) == \A i \in DOMAIN m.x : m.x[i].nv = 0
+SharpQ(m) == \A i \in DOMAIN m.x : m.x[i].nv = 0 /\ ~OnVk(m.p.macros[i])
 MaxNeed(m) == LET S == UNION {{m.x[i].steps[j].n : j \in DOMAIN m.x[i].steps} : i \in DOMAIN m.x} IN
               IF S = {} THEN 1 ELSE CHOOSE a \in S : \A b \in S : a >= b
 Overlap(m, i, j) == m.x[i].keys \cap m.x[j].keys # {} \/ m.x[i].chars \cap m.x[j].chars # {}
@@ -162,6 +187,10 @@ MonInit(p) ==
    nreg |-> 0,        \* macros started since the last idle point (capped at cap + 1)
    npc |-> 0,         \* cancel-on-press macros among them (capped at 2)
    down |-> {},       \* macro keys down at the OS
+   bdown |-> {},      \* mouse buttons of macros down at the OS
+   bnew |-> {},       \* ... that went down on this tick
+   bttl |-> 0,        \* ticks within which the buttons that are down have to come up again
+   want |-> [i \in DOMAIN p.macros |-> FALSE],    \* virtual key of macro i wanted pressed
    ql |-> 0,          \* inputs arrived and not yet processed (one per tick)
    gapIn |-> 0, lastIdle |-> TRUE,
    trig |-> FALSE,    \* the trigger of a cancel-on-press macro may be armed (a press may cancel the macros)
@@ -202,13 +231,51 @@ CancelAll(m, ttlS, ttlC, kind, imm) ==
                !.acts = SelectSeq(upd, LAMBDA a : ~uni(a)),
                !.dused = @ \cup {upd[i].mi : i \in {j \in DOMAIN upd : uni(upd[j])}}]
 
+\* a macro is started (its key, or the press of its virtual key, arrives); late = further ticks until the
+\* activating event is processed (a virtual-key operation goes through a custom action and the queue)
+Register(m1, m, mi, late) ==
+  LET p == m.p
+      confl == {i \in DOMAIN m1.acts : ~SharpCancelled(m1.acts[i]) /\ Overlap(m, m1.acts[i].mi, mi)}
+      dconfl == \E j \in m1.dused : Overlap(m, j, mi)
+      keep == SelectSeq(m1.acts, LAMBDA a : SharpCancelled(a) \/ ~Overlap(m, a.mi, mi))
+  IN IF confl # {} \/ dconfl
+     THEN \* the projections on the macro's keys interleave: outside the sharp zone
+          [m1 EXCEPT !.nreg = OMin(@ + 1, p.cap + 1), !.trig = @ \/ p.macros[mi].pc, !.acts = keep,
+                     !.npc = IF p.macros[mi].pc THEN OMin(@ + 1, 2) ELSE @,
+                     !.dused = @ \cup {mi} \cup {m1.acts[i].mi : i \in confl}]
+     ELSE [m1 EXCEPT !.nreg = OMin(@ + 1, p.cap + 1), !.trig = @ \/ (p.macros[mi].pc /\ ~SharpQ(m)),
+                     !.npc = IF p.macros[mi].pc THEN OMin(@ + 1, 2) ELSE @,
+                     !.acts = Append(m1.acts, [NewAct(m, mi) EXCEPT !.proc = @ + late])]
+
+\* the macro's key (virtual key) is released
+KeyUp(m0, m, mi, late) ==
+  LET p == m.p
+      sharp == SharpQ(m)
+      m1 == [m0 EXCEPT !.acts = [i \in DOMAIN m0.acts |->
+                                   LET a == m0.acts[i] IN
+                                   IF a.mi = mi /\ a.key
+                                   THEN [a EXCEPT !.key = FALSE,
+                                                  !.rttl = IF sharp THEN m.ql + 2 + m.x[mi].lead
+                                                           ELSE IF late > 0 THEN m.ql + 2 + late + m.x[mi].lead
+                                                           ELSE 0 - 1]
+                                   ELSE a]]
+  IN IF p.macros[mi].rc
+     THEN IF sharp THEN CancelAll(m1, m.ql + 1, m.ql + 2, "rc", FALSE)
+                   ELSE CancelAll(m1, 0 - 1, 0 - 1, "rc", FALSE)
+     ELSE m1
+
 MonIn(m, r) ==
   IF m.err # "" THEN m
   ELSE IF r.e \notin {"d", "u"} THEN Fail(m, "C08: input kind outside the instance")
   ELSE
     LET p == m.p
         mi == MacIdx(p, r.c)
-        m0 == [m EXCEPT !.ql = @ + 1, !.gapIn = @ + 1]
+        \* every further input may delay a queued virtual-key release by a tick
+        m0 == [m EXCEPT !.ql = @ + 1, !.gapIn = @ + 1,
+                        !.bttl = IF m.bdown # {} THEN @ + 1 ELSE @,
+                        !.acts = [i \in DOMAIN m.acts |->
+                                    IF OnVk(p.macros[m.acts[i].mi]) /\ m.acts[i].rttl > 0
+                                    THEN [m.acts[i] EXCEPT !.rttl = @ + 1] ELSE m.acts[i]]]
     IN IF r.e = "d"
        THEN LET \* C3: a cancel-on-press macro in its first round, processed and still with steps to play
                 \* (the documentation describes one trigger; with several cancel-on-press macros started
@@ -219,29 +286,19 @@ MonIn(m, r) ==
                           /\ a.pos < m.x[a.mi].N /\ p.macros[a.mi].c # r.c
                 m1 == IF must THEN CancelAll(m0, 0, 1, "pc", TRUE)
                       ELSE IF m.trig THEN CancelAll(m0, 0 - 1, 0 - 1, "pc?", TRUE) ELSE m0
-            IN IF mi = 0 THEN m1
-               ELSE LET confl == {i \in DOMAIN m1.acts : ~SharpCancelled(m1.acts[i]) /\ Overlap(m, m1.acts[i].mi, mi)}
-                        dconfl == \E j \in m.dused : Overlap(m, j, mi)
-                        keep == SelectSeq(m1.acts, LAMBDA a : SharpCancelled(a) \/ ~Overlap(m, a.mi, mi))
-                    IN IF confl # {} \/ dconfl
-                       THEN \* the projections on the macro's keys interleave: outside the sharp zone
-                            [m1 EXCEPT !.nreg = OMin(@ + 1, p.cap + 1), !.trig = @ \/ p.macros[mi].pc, !.acts = keep,
-                                       !.npc = IF p.macros[mi].pc THEN OMin(@ + 1, 2) ELSE @,
-                                       !.dused = @ \cup {mi} \cup {m1.acts[i].mi : i \in confl}]
-                       ELSE [m1 EXCEPT !.nreg = OMin(@ + 1, p.cap + 1), !.trig = @ \/ (p.macros[mi].pc /\ ~SharpQ(m)),
-                                       !.npc = IF p.macros[mi].pc THEN OMin(@ + 1, 2) ELSE @,
-                                       !.acts = Append(m1.acts, NewAct(m, mi))]
-       ELSE IF mi = 0 THEN m0
-       ELSE LET sharp == SharpQ(m)
-                m1 == [m0 EXCEPT !.acts = [i \in DOMAIN m.acts |->
-                                             LET a == m.acts[i] IN
-                                             IF a.mi = mi /\ a.key
-                                             THEN [a EXCEPT !.key = FALSE, !.rttl = IF sharp THEN m.ql + 2 + m.x[mi].lead ELSE 0 - 1]
-                                             ELSE a]]
-            IN IF p.macros[mi].rc
-               THEN IF sharp THEN CancelAll(m1, m.ql + 1, m.ql + 2, "rc", FALSE)
-                    ELSE CancelAll(m1, 0 - 1, 0 - 1, "rc", FALSE)
+                vk == VkOp(p, r.c)
+            IN IF mi # 0 THEN Register(m1, m, mi, 0)
+               ELSE IF vk[1] # 0
+               THEN LET vi == vk[1]
+                        w == m.want[vi]
+                        nw == IF vk[2] = "toggle" THEN ~w ELSE vk[2] = "press"
+                        m2 == [m1 EXCEPT !.want[vi] = nw]
+                    IN IF nw /\ (~w \/ vk[2] = "press") THEN Register(m2, m, vi, 2)
+                       ELSE IF w /\ ~nw THEN KeyUp(m2, m, vi, 2)
+                       ELSE m2
                ELSE m1
+       ELSE IF mi = 0 THEN m0
+       ELSE KeyUp(m0, m, mi, 0)
 
 \* ---- matching one OS event against the activations
 \* index of the step the activation would play next (0 = none); a finished round of a repeating macro wraps
@@ -252,7 +309,7 @@ StepMatches(a, s, kind, arg) ==
   /\ s.t = kind
   /\ (kind = "d" => s.k = arg)
   /\ (kind = "u" => arg \in s.ks /\ arg \in a.held)
-  /\ (kind = "U" => s.ch = arg)
+  /\ (kind \in {"U", "bd"} => s.ch = arg)
 WouldStep(m, a, kind, arg) ==
   LET j == NextIdx(m, a) IN j # 0 /\ a.st # "done" /\ StepMatches(a, m.x[a.mi].steps[j], kind, arg)
 IsWrap(m, a) == a.pos >= m.x[a.mi].N
@@ -260,7 +317,7 @@ IsWrap(m, a) == a.pos >= m.x[a.mi].N
 StepObjection(m, a, kind, arg) ==
   LET s == m.x[a.mi].steps[NextIdx(m, a)] IN
   \* (a unicode item already taken up when the cancellation takes effect may still come out later: it holds no key)
-  IF (a.st = "cleaning" \/ a.ttlS = 0) /\ kind # "U"
+  IF (a.st = "cleaning" \/ a.ttlS = 0) /\ kind \notin {"U", "bd"}
   THEN "C08 C1: a cancelled macro kept playing its steps"
   ELSE IF IsWrap(m, a) /\ ~a.key /\ a.rttl = 0
   THEN "C08 R2: a repeating macro started a new round although its key had been released"
@@ -271,7 +328,7 @@ StepObjection(m, a, kind, arg) ==
 Overtakes(m, a, kind, arg) ==
   LET j == NextIdx(m, a)
       st == m.x[a.mi].steps
-  IN j # 0 /\ j < Len(st) /\ st[j].t = "U" /\ StepMatches(a, st[j + 1], kind, arg)
+  IN j # 0 /\ j < Len(st) /\ st[j].t \in {"U", "bd"} /\ StepMatches(a, st[j + 1], kind, arg)
 CleanOk(a, kind, arg) == a.st \in {"canc", "cleaning"} /\ kind = "u" /\ arg \in a.held
 
 ApplyStep(m, i, kind, arg) ==
@@ -288,7 +345,7 @@ ApplyStep(m, i, kind, arg) ==
 
 MacroEvent(m, kind, arg) ==
   LET acts == m.acts
-      Uses(j) == IF kind = "U" THEN arg \in m.x[j].chars ELSE arg \in m.x[j].keys
+      Uses(j) == IF kind \in {"U", "bd"} THEN arg \in m.x[j].chars ELSE arg \in m.x[j].keys
       C == {i \in DOMAIN acts : Uses(acts[i].mi)}
       DoClean(i) == [m EXCEPT !.acts[i] = [acts[i] EXCEPT !.held = @ \ {arg}, !.st = "cleaning", !.ttlS = 0]]
       clAny == {i \in C : CleanOk(acts[i], kind, arg)}
@@ -297,7 +354,7 @@ MacroEvent(m, kind, arg) ==
      \* the OS sees a release one tick after the key left kanata's state: the tick after an idle report may
      \* still release keys of macros that were cancelled outside the sharp zone
      ELSE IF kind = "u" /\ m.lastIdle /\ \A i \in C : arg \notin acts[i].held THEN m
-     ELSE IF C = {} /\ kind = "U" /\ m.lastc # "none" THEN m
+     ELSE IF C = {} /\ kind \in {"U", "bd"} /\ m.lastc # "none" THEN m
      ELSE IF C = {} THEN Fail(m, "C08 S0: output on a macro's key while no macro that uses the key is running")
      ELSE LET W == {i \in C : WouldStep(m, acts[i], kind, arg)}
               ok == {i \in W : StepObjection(m, acts[i], kind, arg) = ""}
@@ -306,8 +363,8 @@ MacroEvent(m, kind, arg) ==
              ELSE IF cl # {}
              THEN DoClean(SetMin(cl))
              ELSE IF W # {} THEN Fail(m, StepObjection(m, acts[SetMin(W)], kind, arg))
-             ELSE IF kind # "U" /\ \E i \in C : Overtakes(m, acts[i], kind, arg)
-             THEN Fail(m, "C08 O1: a key step of the macro was output before the unicode item that precedes it")
+             ELSE IF kind \notin {"U", "bd"} /\ \E i \in C : Overtakes(m, acts[i], kind, arg)
+             THEN Fail(m, "C08 O1: a key step of the macro was output before the custom item (unicode, mouse button) that precedes it")
              ELSE Fail(m, "C08 S1: output on a macro's key that is not the macro's next step (order / extra / missing step)")
 
 RECURSIVE ScanOut(_, _)
@@ -324,6 +381,15 @@ ScanOut(m, out) ==
                ELSE IF e[1] = "d" /\ e[2] \in AllVouts(m)
                THEN ScanOut([m EXCEPT !.vbal = OMin(@ + 1, 3)], rest)
                ELSE ScanOut(m, rest)
+          ELSE IF e[1] = "bd" /\ e[2] \in AllBtns(m)
+          THEN IF e[2] \in m.bdown THEN ScanOut(m, rest)
+               ELSE ScanOut(MacroEvent([m EXCEPT !.bdown = @ \cup {e[2]}, !.bnew = @ \cup {e[2]},
+                                                 !.bttl = OMax(@, 4 + m.ql)], "bd", e[2]), rest)
+          ELSE IF e[1] = "bu" /\ e[2] \in AllBtns(m)
+          THEN IF e[2] \notin m.bdown THEN ScanOut(m, rest)
+               ELSE IF e[2] \in m.bnew
+               THEN Fail(m, "C08 S2: a mouse button of a macro went down and up in the same millisecond")
+               ELSE ScanOut([m EXCEPT !.bdown = @ \ {e[2]}], rest)
           ELSE IF e[1] = "U" /\ e[2] \in AllChars(m) THEN ScanOut(MacroEvent(m, "U", e[2]), rest)
           ELSE ScanOut(m, rest)
 
@@ -335,7 +401,8 @@ MonTick(m, out, idle, cb) ==
     LET p == m.p
         cap == MaxNeed(m)
         \* start of the tick
-        m0 == [m EXCEPT !.acts = [i \in DOMAIN m.acts |->
+        m0 == [m EXCEPT !.bnew = {}, !.bttl = IF m.bdown = {} THEN 0 ELSE Dec(@),
+                        !.acts = [i \in DOMAIN m.acts |->
                                     [m.acts[i] EXCEPT !.stepped = FALSE, !.el = OMin(@ + 1, cap)]]]
         m1 == ScanOut(m0, out)
         \* end of the tick, per activation
@@ -355,11 +422,15 @@ MonTick(m, out, idle, cb) ==
                         a.st = "live" /\ a.proc <= 1 /\ p.macros[a.mi].rep /\ a.key /\ ~a.opt
         acts3 == IF idle THEN SelectSeq(acts2, SharpCancelled) ELSE acts2
         settled == idle /\ m.lastIdle /\ m.gapIn = 0
-        stuck == m1.down # {}
+        stuck == m1.down # {} \/ m1.bdown # {}
+        \* (kanata is not idle while a custom item of a macro is pending, so E1 alone would never judge this)
+        e2 == m1.bdown # {} /\ m1.bttl = 0 /\ m1.bnew = {}
         m2 == IF m1.err # "" THEN m1
               ELSE IF lateC2 THEN Fail(m1, "C08 C2: a cancelled macro's keys were not released on the tick after the cancellation")
               ELSE IF s3 THEN Fail(m1, "C08 S3: a macro stopped before all of its steps were played")
               ELSE IF r1 THEN Fail(m1, "C08 R1: kanata is idle although the key of a repeating macro is held")
+              ELSE IF e2
+              THEN Fail(m1, "C08 E2: a mouse button pressed by a macro was not released again")
               ELSE IF settled /\ stuck
               THEN Fail(m1, "C08 E1: a key pressed by a macro is still down although kanata is idle")
               ELSE IF p.b1 /\ cb /\ stuck
@@ -382,7 +453,7 @@ RECURSIVE MonSilent(_, _, _, _)
 MonSilent(m, n, idle, cb) ==
   IF n = 0 \/ m.err # "" THEN m
   ELSE IF m.acts = <<>> /\ m.ql = 0 /\ m.gapIn = 0 /\ m.lastIdle = idle /\ idle /\ ~m.trig
-          /\ m.lastc = "none" /\ m.vbal = 0 /\ m.down = {} /\ m.dused = {} /\ m.nreg = 0 /\ m.npc = 0
+          /\ m.lastc = "none" /\ m.vbal = 0 /\ m.down = {} /\ m.bdown = {} /\ m.dused = {} /\ m.nreg = 0 /\ m.npc = 0
   THEN m
   ELSE MonSilent(MonTick(m, <<>>, idle, cb), n - 1, idle, cb)
 =============================================================================
